@@ -73,6 +73,7 @@ def run(ctx):
     from .. import xmlshape_bind
 
     xmlshape_bind.run_matrix(ctx, "C15")
+    declared_encodings(ctx)
     byte_level(ctx)
     json_faults(ctx, cases)
 
@@ -111,6 +112,35 @@ def typed_anytype_faults(ctx):
                             if why:
                                 ctx.violation(f"xsi:type=xs:{tp} with text {bad!r} ({h}, {'strict' if strict else 'lenient'}): {why}", {"text": text, "handler": h})
     ctx.extra["typed_anytype_cases"] = n
+
+
+def declared_encodings(ctx):
+    """A well-formed ASCII document that DECLARES an encoding: every codec name Python knows plus a few that exist
+    nowhere.  Whatever the handler can or cannot decode, the outcome is an instance or a documented error."""
+    import encodings.aliases
+    import warnings
+
+    from xsdata.formats.dataclass.context import XmlContext
+    from xsdata.formats.dataclass.parsers import XmlParser
+    from xsdata.formats.dataclass.parsers.handlers import LxmlEventHandler, XmlEventHandler
+
+    from ..poly_models import SLeaf
+
+    names = sorted(set(encodings.aliases.aliases.values())) + ["utf-8", "UTF-16", "utf-7", "idna", "punycode", "undefined", "xyz", "", "utf_8_sig", "rot-13"]
+    xctx = XmlContext()
+    for enc in names:
+        doc = f'<?xml version="1.0" encoding="{enc}"?><SLeaf><v>1</v></SLeaf>'.encode("ascii")
+        for hname, handler in (("native", XmlEventHandler), ("lxml", LxmlEventHandler)):
+            ctx.case(("declared-encoding", enc, hname))
+            with warnings.catch_warnings():
+                warnings.simplefilter("ignore")
+                try:
+                    out = ("ok", XmlParser(context=xctx, handler=handler).from_bytes(doc, SLeaf))
+                except Exception as ex:  # noqa: BLE001
+                    out = ("exc", ex)
+            why = outcome_ok(out, SLeaf)
+            if why:
+                ctx.violation(f"document declaring encoding={enc!r} ({hname} handler): {why}", {"encoding": enc, "handler": hname})
 
 
 def byte_level(ctx):
